@@ -83,7 +83,7 @@ def selfcheck(workdir, tier, seed=1):
         if tier == "quick" and int(hashlib.sha1(fn.encode()).hexdigest(), 16) % 3 != seed % 3:
             continue
         b = open(p, "rb").read()
-        if len(b) <= 20000:
+        if len(b) <= 6000:
             named.append((fn, b))
     verdicts, st = decode(named, workdir)
     counts, wrong = {}, []
@@ -93,9 +93,24 @@ def selfcheck(workdir, tier, seed=1):
         counts["%s:%s" % (kind, got)] = counts.get("%s:%s" % (kind, got), 0) + 1
         if got not in ALLOWED[kind]:
             wrong.append((fn, kind, text, got, verdicts[fn]["why"], verdicts[fn]["valid"]))
+    # the corpus phases of c01-c07 read these files with the binder's own decoder (wasm_decode.py): it must produce the module
+    # that the specification's decoder produces
+    import wasm_decode
+    ndec = 0
+    for fn, b in named:
+        o = verdicts[fn]
+        if o["status"] != "ok":
+            continue
+        try:
+            pm = wasm_decode.decode(b)
+        except wasm_decode.Unsupported:
+            continue
+        ndec += 1
+        if canon(pm) != canon(o["module"]):
+            raise MachineryError("the binder's decoder and WasmBinary.tla decode %s differently" % fn)
     if wrong:
         raise MachineryError("WasmBinary/WasmValid disagree with the spec suite on %d files, e.g. %s" % (len(wrong), wrong[:3]))
-    st.update({"files": len(named), "by_kind": counts,
+    st.update({"files": len(named), "by_kind": counts, "python_decoder_agrees_on": ndec,
                "definite": sum(c for k, c in counts.items() if not k.endswith(":unsupported"))})
     return st
 
@@ -130,7 +145,9 @@ def _instr(ins):
         ins[1] = ""
     if op == "call_indirect" and len(ins) == 2:
         ins.append(0)
-    return [list(x) if isinstance(x, (list, tuple)) else x for x in ins]
+    # (numbers above 2^31 - 1 saturate in the specification's decoder: TLC integers)
+    sat = lambda x: min(x, 2 ** 31 - 1) if isinstance(x, int) and not isinstance(x, bool) else x
+    return [[sat(y) for y in x] if isinstance(x, (list, tuple)) else sat(x) for x in ins]
 
 
 def _body(body):
@@ -147,7 +164,8 @@ def _limits(v, nomax):
     if not v or v.get("present") is False:
         return {"present": False, "min": 0, "max": 0, "hasmax": False, "shared": False}
     hasmax = v.get("hasmax", v.get("max") is not None)
-    return {"present": True, "min": v["min"], "max": v["max"] if hasmax else nomax, "hasmax": bool(hasmax), "shared": bool(v.get("shared"))}
+    sat = lambda x: min(x, 2 ** 31 - 1)
+    return {"present": True, "min": sat(v["min"]), "max": sat(v["max"]) if hasmax else nomax, "hasmax": bool(hasmax), "shared": bool(v.get("shared"))}
 
 
 def canon(m):
